@@ -12,11 +12,13 @@ import (
 	"encoding/json"
 	"errors"
 	"fmt"
+	"math/rand"
 	"strings"
 	"time"
 
 	gmsl "github.com/matrix-org/gomatrixserverlib"
 	"github.com/matrix-org/gomatrixserverlib/spec"
+	"github.com/matrix-org/util"
 )
 
 func init() { areas["event"] = Area{Gen: genEvent, Exec: execEvent} }
@@ -152,6 +154,8 @@ func execEvent(op string, args []string) string {
 			return classifyErr(err, in)
 		}
 		return withLen(pduTuple(p, true), p)
+	case "build":
+		return execBuild(args)
 	case "headered":
 		in := unhx(args[1])
 		p, err := gmsl.NewEventFromHeaderedJSON(in, args[0] == "1")
@@ -320,14 +324,92 @@ func (r *Rng) buildEvent(o *Out, ver string) *built {
 		pe.Unsigned = spec.RawJSON(`{"age":` + fmt.Sprint(r.Intn(100000)) + `}`)
 	}
 	now := time.UnixMilli(int64(1600000000000 + r.Intn(1<<30)))
+	// the 16 random characters of a format-1 event ID come from math/rand's global source: seed it
+	randSeed := int64(r.Intn(1 << 30))
+	rand.Seed(randSeed)
+	rand16 := util.RandomString(16)
+	rand.Seed(randSeed)
 	eb := v.NewEventBuilderFromProtoEvent(&pe)
 	p, err := eb.Build(now, spec.ServerName(sg.name), sg.kid, sg.sk)
+	var res *built
+	sig := ""
 	if err != nil {
 		o.Count("build.refused")
-		return nil
+	} else {
+		o.Count("build.ok")
+		res = &built{ver: ver, pdu: p, json: p.JSON(), sg: sg, pe: pe, now: now}
+		// the signature, computed independently of Build: ed25519 over the canonical JSON of the redacted
+		// event without signatures and unsigned
+		if red, err := v.RedactEventJSON(p.JSON()); err == nil {
+			m := toMap(red)
+			delete(m, "signatures")
+			delete(m, "unsigned")
+			if payload, err := gmsl.CanonicalJSON(m.text()); err == nil {
+				sig = base64.RawStdEncoding.EncodeToString(ed25519.Sign(sg.sk, payload))
+			}
+		}
 	}
-	o.Count("build.ok")
-	return &built{ver: ver, pdu: p, json: p.JSON(), sg: sg, pe: pe, now: now}
+	opt := func(raw []byte) string {
+		if raw == nil {
+			return "~"
+		}
+		return hx(raw)
+	}
+	skArg := "~"
+	if pe.StateKey != nil {
+		skArg = hx([]byte(*pe.StateKey))
+	}
+	seed := sha256.Sum256([]byte("verif-seed:" + sg.name + ":" + string(sg.kid)))
+	im := o.Do("build", ver, fmt.Sprint(now.UnixMilli()), hx([]byte(sg.name)), hx([]byte(sg.kid)), hx(seed[:]), fmt.Sprint(randSeed),
+		hx([]byte(rand16)), hx([]byte(sig)), hx([]byte(pe.Type)), hx([]byte(pe.SenderID)), hx([]byte(pe.RoomID)), skArg,
+		showIDs(pe.PrevEvents.([]string)), showIDs(pe.AuthEvents.([]string)), hx([]byte(pe.Redacts)), fmt.Sprint(pe.Depth),
+		opt(pe.Content), opt(pe.Unsigned), opt(pe.Signature))
+	o.Count("build.op." + outcomeClass(im))
+	return res
+}
+
+func parseIDs(s string) []string {
+	out := []string{}
+	s = strings.TrimSuffix(strings.TrimPrefix(s, "["), "]")
+	if s == "" {
+		return out
+	}
+	for _, h := range strings.Split(s, ",") {
+		out = append(out, string(unhx(h)))
+	}
+	return out
+}
+
+// execBuild: event.build <ver> <now ms> <origin> <kid> <key seed> <rand seed> <rand16> <sig> <type> <sender> <room> <sk> <prev> <auth>
+// <redacts> <depth> <content> <unsigned> <signatures>   (rand16 and sig are for the model only)
+func execBuild(args []string) string {
+	v, err := gmsl.GetRoomVersion(gmsl.RoomVersion(args[0]))
+	if err != nil {
+		return "err:version"
+	}
+	var nowms, rseed, depth int64
+	fmt.Sscan(args[1], &nowms)
+	fmt.Sscan(args[5], &rseed)
+	fmt.Sscan(args[15], &depth)
+	optRaw := func(a string) spec.RawJSON {
+		if a == "~" {
+			return nil
+		}
+		return spec.RawJSON(unhx(a))
+	}
+	pe := gmsl.ProtoEvent{Type: string(unhx(args[8])), SenderID: string(unhx(args[9])), RoomID: string(unhx(args[10])),
+		PrevEvents: parseIDs(args[12]), AuthEvents: parseIDs(args[13]), Redacts: string(unhx(args[14])), Depth: depth,
+		Content: optRaw(args[16]), Unsigned: optRaw(args[17]), Signature: optRaw(args[18])}
+	if args[11] != "~" {
+		pe.StateKey = sp(string(unhx(args[11])))
+	}
+	sk := ed25519.NewKeyFromSeed(unhx(args[4]))
+	rand.Seed(rseed)
+	p, err := v.NewEventBuilderFromProtoEvent(&pe).Build(time.UnixMilli(nowms), spec.ServerName(unhx(args[2])), gmsl.KeyID(unhx(args[3])), sk)
+	if err != nil {
+		return classifyErr(err, []byte("{}"))
+	}
+	return withLen(pduTuple(p, true), p)
 }
 
 // ---- JSON edits on event texts ----
